@@ -31,11 +31,11 @@ CHECK_DEADLOCK FALSE
 """
 
 
-def universe(prefixes, names, pkgnames):
+def universe(prefixes, names, pkgnames, upto=12):
     u = set(names)
     for p in list(prefixes) + list(pkgnames) + list(names):
         u.add(p)
-        for i in range(0, 12):
+        for i in range(0, upto):
             u.add(f"{p}{i}")
     return sorted(u)
 
@@ -101,6 +101,22 @@ def run(ctx):
     if len(cases_p) < 100:
         raise MachineryError(f"too few exported histories for the package alphabet ({len(cases_p)}): vacuous")
     cases += cases_p
+    # third alphabet, deep: one prefix allocated ~30 times, 13 same-named packages (suffix / alias index >= 10)
+    rd = ctx.tlc("AllocMC", "Alloc_deep_sim.cfg", workers=1, simulate="num=%d" % (120 if thorough else 40), depth=31,
+                 timeout=600, count=False)
+    deep = []
+    seen_d = set()
+    for h in rd.prints("CASE"):
+        k = json.dumps(h["ops"], sort_keys=True)
+        if k not in seen_d:
+            seen_d.add(k)
+            deep.append(dict(h, dst="x/io", srcpath="", srcname=""))
+    if len(deep) < 10:
+        raise MachineryError(f"deep simulation exported only {len(deep)} histories:\n" + rd.tail())
+    if not any(sum(1 for o in c["ops"] if o["op"] == "alloc") >= 11 for c in deep) or \
+       not any(sum(1 for o in c["ops"] if o["op"] == "import") >= 11 for c in deep):
+        ctx.note("deep histories: no history with >= 11 allocations / imports this seed")
+    cases += deep
     if len(cases) < 100:
         raise MachineryError(f"too few exported histories ({len(cases)}): vacuous")
     # coverage / vacuity: every op kind must occur in the exported histories
@@ -118,7 +134,7 @@ def run(ctx):
     prefixes = {o["prefix"] for c in cases for o in c["ops"] if "prefix" in o}
     names = {o["name"] for c in cases for o in c["ops"] if o["op"] in ("add", "exists")}
     pkgnames = {o["name"] for c in cases for o in c["ops"] if o["op"] == "import"}
-    uni = universe(prefixes, names, pkgnames)
+    uni = universe(prefixes, names, pkgnames, upto=40)
     d = ctx.mkdir("replay")
     inp = {"universe": uni, "cases": [{"inpkg": c["inpkg"], "dst": c["dst"], "srcpath": c["srcpath"], "srcname": c["srcname"],
                                         "ops": [{k: v for k, v in o.items() if k in ("op", "name", "prefix", "path")}
@@ -140,7 +156,11 @@ def run(ctx):
             drift += 1
             if drift <= 3:
                 ctx.note(f"drift (code differs from Alloc.tla Impl, contract decides): {json.dumps(dd)}")
-    n_ok, rej = validate(ctx, events, label="in-process replay of TLC transitions")
+    allpaths = sorted({o["path"] for c in cases for o in c["ops"] if "path" in o} | set(PATHS))
+    mc1 = ("---- MODULE AllocTraceMC1 ----\nEXTENDS AllocTrace\nMCPathOrder == <<" +
+           ", ".join(json.dumps(p) for p in allpaths) + ">>\n====\n")
+    n_ok, rej = validate(ctx, events, mc_module="AllocTraceMC1", files={"AllocTraceMC1.tla": mc1},
+                         label="in-process replay of TLC transitions")
     ctx.cov["traces_validated_against_impl"] += n_ok + len(rej)
     for rj in rej:
         ctx.violation({"kind": "contract-rejects-reply", "op": rj["at"]["op"], "route": "in-process"},
